@@ -346,6 +346,39 @@ def install_failpoints():
         return lagrange_gradient
     BINDINGS["Model.lagrange_gradient"] = instrument_method(Model, "lagrange_gradient", mk)
 
+    # second failpoint: the j-th acceptance test (Controller.calculate_ratio) is told that the model INCREASES along the
+    # step (the value model_value returns there is replaced by +|v|+tiny). This is what rounding in a trust-region solver
+    # produces occasionally in the wild (151 natural occurrences in a quick pass, against ~40,000 iterations); the failpoint
+    # puts that exit - abandon the trial point, soft restart or quit with flag -2 / 5 - at any iteration we choose.
+    # Only controller's own binding of model_value is replaced, and it only acts when called from calculate_ratio.
+    import dfols.controller as dc
+    orig_mv = dc.model_value
+
+    def model_value(*a, **kw):
+        v = orig_mv(*a, **kw)
+        c = CTX
+        if c is not None and sys._getframe(1).f_code.co_name == "calculate_ratio":
+            c.extra["ratio_calls"] = c.extra.get("ratio_calls", 0) + 1
+            if c.extra.get("tr_increase_at") == c.extra["ratio_calls"]:
+                c.extra["tr_increase_fired"] = c.extra.get("tr_increase_fired", 0) + 1
+                if len(a) > 3 or kw.get("h") is not None:
+                    # regularised form: pred = h(x) - model_value(...): a value above h(x) makes it negative
+                    return float(abs(v)) + 1e6
+                return float(abs(v)) + 1e-8
+        return v
+    _PATCHES.append((dc, "model_value", orig_mv))
+    dc.model_value = model_value
+    BINDINGS["controller.model_value"] = 1
+
+
+def apply_failpoint(ctx, fp):
+    """fp = {'name': 'lagrange' | 'tr_increase', 'at': j} (part of a cfg, so replays carry it)."""
+    if not fp:
+        return
+    install_failpoints()
+    key = {"lagrange": "lagrange_fail_at", "tr_increase": "tr_increase_at"}[fp["name"]]
+    ctx.extra[key] = int(fp["at"])
+
 
 def install_dykstra_logger():
     """Observe every call of dykstra (all bindings): projector calls are counted through per-call wrappers
